@@ -86,6 +86,8 @@ pub fn alphabet(scheme: Scheme, init_seq: u64, own_pub: &[u8], other_pub: &[u8])
     a.push(Op::Insert(k("client"), Val::L(vec![b"one".to_vec()])));
     a.push(Op::Insert(k("ll"), Val::LL(vec![vec![vec![1], vec![]], vec![]])));
     a.push(Op::Insert(vec![], Val::B(vec![1, 2])));
+    a.push(Op::Insert(k("rec"), Val::Rec));
+    a.push(Op::Insert(k("recs"), Val::RecList));
     a.push(Op::Insert(vec![0xff, 0x00], Val::U8(7)));
     // reserved keys, well-typed
     a.push(Op::Insert(k("tcp"), Val::U16(80)));
@@ -150,6 +152,12 @@ pub fn alphabet(scheme: Scheme, init_seq: u64, own_pub: &[u8], other_pub: &[u8])
     a.push(Op::InsertRaw(k("r"), vec![0xc2, 0x83, 0x01]));
     a.push(Op::InsertRaw(k("r"), vec![0xf8, 0x01, 0x05]));
     a.push(Op::InsertRaw(k("r"), vec![0xbf]));
+    if !cfg!(miri) {
+        // very deep and very long values (nothing bounds the argument of the raw entry point)
+        a.push(Op::InsertRawNested(k("r"), 400_000));
+        a.push(Op::InsertRawNested(k("r"), 40));
+        a.push(Op::Insert(k("huge"), Val::B(vec![0x11; 70_000])));
+    }
     // raw inserts under reserved keys
     a.push(Op::InsertRaw(k("tcp"), vec![0x82, 0x1f, 0x90]));
     a.push(Op::InsertRaw(k("tcp"), vec![0x82, 0x00, 0x50]));
@@ -399,7 +407,8 @@ pub fn random_op(r: &mut impl RngCore, alpha: &[Op], scheme: Scheme) -> Op {
 
 pub fn random_history(r: &mut impl RngCore, scheme: Scheme, len: usize) -> History {
     let own = 1000 + below(r, 4);
-    let other = 2000 + below(r, 4);
+    // one history in five re-keys between a key and its negation
+    let other = if below(r, 5) == 0 { own | (1u64 << 63) } else { 2000 + below(r, 4) };
     let own_pub = own_ref(scheme, own).pub_bytes();
     let other_pub = own_ref(scheme, other).pub_bytes();
     let ins = inits(scheme, own);
